@@ -122,7 +122,8 @@ def run(ctx):
             raise tlcmod.MachineryError("vacuity witness %s not refuted" % inv)
     Ts = [1, 2, 3, 4, 6] if q else [1, 2, 3, 4, 5, 6, 7]
     # ---- SampledKLEnergy level -------------------------------------------------------------------------------
-    kl_cfgs = [dict(n=2, mirror=True, const=[], pe=[]), dict(n=3, mirror=False, const=["a"], pe=[]), dict(n=1, mirror=True, const=[], pe=["b"])]
+    kl_cfgs = [dict(n=2, mirror=True, const=[], pe=[]), dict(n=3, mirror=False, const=["a"], pe=[]), dict(n=1, mirror=True, const=[], pe=["b"]),
+               dict(n=3, mirror=True, const=[], pe=[], geo=True)]      # geoVI: a mirrored pair split over two tasks must not matter either
     if not q:
         kl_cfgs += [dict(n=2, mirror=True, const=["b"], pe=["b"]), dict(n=4, mirror=True, const=[], pe=[]), dict(n=2, mirror=True, const=[], pe=[], geo=True),
                     dict(n=3, mirror=False, const=[], pe=["a"], geo=True)]
